@@ -744,6 +744,15 @@ func main() {
 		}
 		sort.Strings(cl)
 		fmt.Printf("violation classes (first per run): %s\n", strings.Join(cl, " "))
+		subj := map[string]int{}
+		for _, v := range badV {
+			if v.Class == "member-crash" || v.Class == "member-wedged" {
+				subj[v.Class+": "+v.Subject]++
+			}
+		}
+		for s, n := range subj {
+			fmt.Printf("  %dx %s\n", n, s)
+		}
 	}
 	ev.write()
 	fmt.Printf("runs=%d nontrivial_distinct=%d violations=%d known=%d infra=%d det=%d/%d diverged wall=%.1fs\n",
